@@ -60,6 +60,9 @@ type Prog struct {
 	Close           bool      `json:"close,omitempty"`
 	ResetFirst      bool      `json:"response_reset_first,omitempty"` // the handler starts with ctx.Response.Reset() (what AbortWithMsg / NotFound do)
 	DelHeader       string    `json:"del_header,omitempty"`           // the handler ends with Response.Header.Del(<framing header>), as a proxy stripping hop-by-hop fields does
+	EmptyWrites     bool      `json:"empty_writes,omitempty"`         // ctx.Write / chunked writer: a zero-length Write before every real one (an io.Writer accepts those)
+	SetCLHeader     bool      `json:"set_content_length_header,omitempty"` // after SetBodyStream(r, -1) the handler sets "Content-Length: <true length>" through the header API (a proxy copying the upstream headers)
+	PreStatus       int       `json:"pre_status,omitempty"`           // a status the handler sets first and replaces after the body was set (0 = none)
 	Salt            byte      `json:"salt"`
 	Flavor          int       `json:"flavor"`
 	body            []byte
@@ -121,7 +124,9 @@ func handler(c context.Context, ctx *app.RequestContext) {
 	if p.ResetFirst {
 		ctx.Response.Reset()
 	}
-	if !p.StatusAfterBody {
+	if p.PreStatus != 0 {
+		ctx.SetStatusCode(p.PreStatus)
+	} else if !p.StatusAfterBody {
 		ctx.SetStatusCode(p.Status)
 	}
 	for hi, h := range p.Headers {
@@ -158,6 +163,9 @@ func handler(c context.Context, ctx *app.RequestContext) {
 				n = len(rest)
 			}
 			if p.Mode == mWrite {
+				if p.EmptyWrites {
+					ctx.Write(nil) //nolint:errcheck
+				}
 				ctx.Write(rest[:n]) //nolint:errcheck
 			} else {
 				ctx.Response.AppendBody(rest[:n])
@@ -178,6 +186,9 @@ func handler(c context.Context, ctx *app.RequestContext) {
 			if n > len(rest) || n <= 0 {
 				n = len(rest)
 			}
+			if p.EmptyWrites {
+				ctx.Write([]byte{}) //nolint:errcheck
+			}
 			ctx.Write(rest[:n]) //nolint:errcheck
 			rest = rest[n:]
 			if len(p.Flush) > 0 && p.Flush[k%len(p.Flush)] {
@@ -185,7 +196,10 @@ func handler(c context.Context, ctx *app.RequestContext) {
 			}
 		}
 	}
-	if p.StatusAfterBody {
+	if p.SetCLHeader && (p.Mode == mStreamUnknown || p.Mode == mStreamLimited) {
+		ctx.Response.Header.Set("Content-Length", fmt.Sprint(len(body)))
+	}
+	if p.StatusAfterBody || p.PreStatus != 0 {
 		ctx.SetStatusCode(p.Status)
 	}
 	if p.DelHeader != "" {
@@ -410,6 +424,11 @@ func genCase(t *rapid.T) *Case {
 			p.Close = true
 		}
 		p.ResetFirst = rapid.IntRange(0, 3).Draw(t, "responseResetFirst") == 0
+		p.EmptyWrites = (p.Mode == mChunkedWriter || p.Mode == mWrite) && rapid.IntRange(0, 2).Draw(t, "emptyWrites") == 0
+		p.SetCLHeader = (p.Mode == mStreamUnknown || p.Mode == mStreamLimited) && len(p.Trailers) == 0 && rapid.IntRange(0, 2).Draw(t, "setContentLengthHeader") == 0
+		if p.Mode != mChunkedWriter && rapid.IntRange(0, 5).Draw(t, "preStatus") == 0 {
+			p.PreStatus = rapid.SampledFrom([]int{204, 304, 200, 404}).Draw(t, "preStatusValue")
+		}
 		if p.Mode != mChunkedWriter && rapid.IntRange(0, 3).Draw(t, "delFramingHeader") == 0 {
 			p.DelHeader = rapid.SampledFrom([]string{"Transfer-Encoding", "Content-Length", "transfer-encoding"}).Draw(t, "delHeader")
 			if p.Mode == mStreamKnown && p.DelHeader == "Content-Length" {
@@ -418,6 +437,9 @@ func genCase(t *rapid.T) *Case {
 				// producing a response that the statement lists
 				p.DelHeader = "Transfer-Encoding"
 			}
+		}
+		if p.SetCLHeader && p.DelHeader == "Content-Length" {
+			p.DelHeader = "Transfer-Encoding" // (setting a length and deleting it again withdraws it, as for SetBodyStream(r, n) above)
 		}
 		c.Reqs = append(c.Reqs, r)
 		c.Progs = append(c.Progs, p)
@@ -480,12 +502,28 @@ func TestC04Programs(t *testing.T) {
 		nt, cls := classify(c)
 		rec.Case(nt, ev.HashString(fmt.Sprintf("%+v", *c)), cls...)
 		if msg := Check(c); msg != "" {
+			if inD48(c) && ev.ReportKnown(prop, "D48") {
+				rec.Excluded("D48-bodiless-status-while-the-body-is-set-then-a-status-with-body", 1)
+				return
+			}
 			t.Fatalf("%s\ncase: %+v", msg, *c)
 		}
 		if nt && rec.WantSample() {
 			rec.Sample(c)
 		}
 	})
+}
+
+// inD48: known finding D48. A handler sets a status that cannot have a body (1xx, 204, 304), then the
+// body, then a status that has one: the framing was decided against the first status and the body is
+// lost. Cases of this shape are run; when one fails, it is reported as the known finding.
+func inD48(c *Case) bool {
+	for i, p := range c.Progs {
+		if (p.PreStatus == 204 || p.PreStatus == 304) && p.Mode != mNone && !wire.Bodiless(c.Reqs[i].Method, p.Status) {
+			return true
+		}
+	}
+	return false
 }
 
 // TestC04Grid enumerates status x mode x method x size class exhaustively (single response + a follow-up).
